@@ -76,11 +76,25 @@ let tbl = ConfigKeys.config_keys
 
 (* in a load case every path is relative to an empty working directory (or an absolute path that does not
    exist): os.Stat answers ENOENT *)
-let render_loaded = function
+(* T:<relative path>=<empty|dir> items: things that exist in the working directory of a load case.  The file
+   system oracle of the model answers Found exactly for those paths (an optional leading "./" is dropped). *)
+let norm_path p =
+  if Stdlib.String.length p >= 2 && Stdlib.String.sub p 0 2 = "./" then Stdlib.String.sub p 2 (Stdlib.String.length p - 2) else p
+
+let touched toks =
+  Stdlib.List.filter_map (fun t ->
+      if Stdlib.String.length t > 2 && Stdlib.String.get t 0 = 'T' && Stdlib.String.get t 1 = ':'
+      then Some (norm_path (fst (cut_eq (Stdlib.String.sub t 2 (Stdlib.String.length t - 2))))) else None) toks
+
+let fs_of toks =
+  let ts = touched toks in
+  fun (p : String.string) -> if Stdlib.List.mem (norm_path (string_of_cs p)) ts then Config.Found else Config.NotExist
+
+let render_loaded toks = function
   | None -> "LOAD-ERROR"
   | Some cfg ->
     let kv = Stdlib.List.map (fun (k, v) -> string_of_cs k ^ "=" ^ string_of_cs v) (ml_list cfg) in
-    let v = Config.db_validate (Some (Config.db_of_cfg cfg)) Config.NotExist in
+    let v = Config.db_validate_fs (Some (Config.db_of_cfg cfg)) (fs_of toks) in
     Stdlib.String.concat ";" (kv @ ["validate=" ^ verdict_text v])
 
 type vcase = { nil : bool; cfg : Config.dbcfg; st : Config.stat }
@@ -123,7 +137,7 @@ let model input =
        (match table_entry k with
         | Some ((_, _), d) -> k ^ "=" ^ string_of_cs d
         | None -> k ^ "=<absent>"))
-  | "load" :: toks -> let (env, opt, dflt) = parse_load toks in render_loaded (Config.load_files_model tbl env opt dflt)
+  | "load" :: toks -> let (env, opt, dflt) = parse_load toks in render_loaded toks (Config.load_files_model tbl env opt dflt)
   | "validate" :: toks ->
     let v = parse_validate toks in
     verdict_text (Config.db_validate (if v.nil then None else Some v.cfg) v.st)
@@ -142,7 +156,12 @@ let spec input obs =
        model comparison speaks (HEAD refuses it) *)
     if unsupported_selection sel then "OK" else
     (match Config.load_files_spec tbl env sel dflt with
-     | None -> if obs = "LOAD-ERROR" then "OK" else "FAIL ill-typed-value-accepted got " ^ obs
+     | None ->
+       if obs = "LOAD-ERROR" then "OK"
+       else if Stdlib.List.exists (fun (_, v) -> v = String.EmptyString) env
+               && Config.load_files_model tbl env sel dflt <> None
+       then "FAIL env-empty-ignored an empty variable of a non-string key is skipped instead of refused"
+       else "FAIL ill-typed-value-accepted got " ^ obs
      | Some cfg ->
        if obs = "LOAD-ERROR" then "FAIL load-refused-valid-sources" else
        let got = assoc_of_obs obs in
@@ -170,7 +189,8 @@ let spec input obs =
         | None ->
           if Stdlib.List.length got <> Stdlib.List.length (ml_list cfg) + 1 then "FAIL key-set-differs-from-table"
           else
-            let want = Config.db_okb (Config.db_of_cfg cfg) Config.NotExist in
+            let dbc = Config.db_of_cfg cfg in
+            let want = Config.db_okb dbc (fs_of toks dbc.Config.prepared_path) in
             let v = try Stdlib.List.assoc "validate" got with Not_found -> "<absent>" in
             if want && v <> "OK" then "FAIL valid-db-refused " ^ v
             else if (not want) && (v = "OK" || Stdlib.String.length v < 4 || Stdlib.String.sub v 0 4 <> "ERR ") then "FAIL invalid-db-accepted " ^ v
